@@ -303,7 +303,9 @@ def is_generated_instance(v) -> bool:
     return "_byte_size" in getattr(type(v), "__annotations__", {}) and hasattr(type(v), "serialize")
 
 
-def render(v) -> str:
+def render(v, _open: tuple = ()) -> str:
+    if any(v is o for o in _open):
+        return "? cycle"   # an instance reachable from itself (code under test may hold such a reference)
     if v is _MISSING:
         return "M"
     if v is None:
@@ -317,7 +319,7 @@ def render(v) -> str:
     if isinstance(v, (bytes, bytearray, memoryview)):
         return f"Y {tohex(v)}"
     if isinstance(v, (tuple, list)):
-        return " ".join([f"T {len(v)}", *map(render, v)])
+        return " ".join([f"T {len(v)}", *(render(x, _open) for x in v)])
     if is_generated_instance(v):
         keys = [k for k in type(v).__annotations__ if k != "_byte_size"]
         toks = [f"O {type(v).__qualname__} {len(keys)}"]
@@ -325,7 +327,7 @@ def render(v) -> str:
             toks.append(k[1:] if k.startswith("_") else k)
             x = getattr(v, k, _MISSING)
             bad = _wrong_enum_type(x, type(v).__annotations__[k])
-            toks.append(bad if bad else render(x))
+            toks.append(bad if bad else render(x, _open + (v,)))
         toks.append(str(int(getattr(v, "_byte_size", 0))))
         return " ".join(toks)
     return f"? {type(v).__name__}"
